@@ -479,12 +479,25 @@ class _Walker:
         if isinstance(st, (ast.For, ast.AsyncFor, ast.While)):
             self.loops += 1
             k = self.loops
+            # the iterable is evaluated once, before the first iteration: what the function has just stored is still what it reads
+            it = None if isinstance(st, ast.While) else self.ev(st.iter, env)
             for fk in [x for x in env if x.startswith("@")]:
                 del env[fk]
             if isinstance(st, ast.While):
                 it = None
             else:
-                it = self.ev(st.iter, env)
+                # what a loop runs over: a comprehension that rebuilds every element as it is (`[(i, x) for i, x in IT]`), or a
+                # `list(IT)` / `tuple(IT)` copy, presents the elements of IT in the order of IT
+                from .loopnorm import _IdentityComp
+                while True:
+                    if isinstance(it, (ast.ListComp, ast.GeneratorExp)) and _IdentityComp._identity(it):
+                        it = it.generators[0].iter
+                    elif isinstance(it, ast.Call) and isinstance(it.func, ast.Name) and it.func.id in ("list", "tuple") and len(it.args) == 1 \
+                            and not it.keywords and isinstance(it.args[0], ast.Call) and isinstance(it.args[0].func, ast.Name) \
+                            and it.args[0].func.id in ("reversed", "enumerate", "zip", "range", "sorted"):
+                        it = it.args[0]
+                    else:
+                        break
                 self._record_calls(it, cond, st, env)
             names = _assigned_names(st.body + st.orelse)
             tnames = _assigned_names([ast.Expr(value=st.target)]) if not isinstance(st, ast.While) else []
@@ -1161,6 +1174,23 @@ class Printer:
             if self._table_get(l):
                 # TABLE.get(k) is None  <=>  k not in TABLE      (a module-level table holds no None)
                 return self._bool(ast.Compare(left=l.args[0], ops=[ast.In()], comparators=[l.func.value]), not pol)  # type: ignore[attr-defined]
+        if isinstance(e, ast.Compare) and len(e.ops) == 1 and isinstance(e.ops[0], (ast.Eq, ast.NotEq, ast.Is, ast.IsNot)):
+            # (a if c else b) == K  ->  (a == K) if c else (b == K): a comparison with a conditional value is the conditional of the
+            # comparisons (c is evaluated first either way); two constants compare to a constant
+            l, r = e.left, e.comparators[0]
+            if isinstance(l, ast.IfExp) and isinstance(r, ast.Constant):
+                return self._bool(ast.IfExp(test=l.test, body=ast.Compare(left=l.body, ops=e.ops, comparators=[r]),
+                                            orelse=ast.Compare(left=l.orelse, ops=e.ops, comparators=[r])), pol)
+            if isinstance(r, ast.IfExp) and isinstance(l, ast.Constant):
+                return self._bool(ast.IfExp(test=r.test, body=ast.Compare(left=l, ops=e.ops, comparators=[r.body]),
+                                            orelse=ast.Compare(left=l, ops=e.ops, comparators=[r.orelse])), pol)
+            if isinstance(l, ast.Constant) and isinstance(r, ast.Constant) and all(
+                    x.value is None or isinstance(x.value, (str, int, bool)) for x in (l, r)):
+                same = l.value == r.value and type(l.value) is type(r.value) if isinstance(e.ops[0], (ast.Is, ast.IsNot)) else l.value == r.value
+                if isinstance(e.ops[0], (ast.NotEq, ast.IsNot)):
+                    same = not same
+                if not isinstance(e.ops[0], (ast.Is, ast.IsNot)) or l.value is None or r.value is None or not same:
+                    return ("const", same == pol)
         lit = self._show(e, atom=True)
         info = getattr(e, "_lin_info", None)
         if info is None and isinstance(e, ast.Compare) and len(e.ops) == 1 and isinstance(e.ops[0], ast.Eq):
